@@ -297,7 +297,7 @@ func checkC11(q c11Req, text, verdict, key string, out c11Outcome) string {
 func TestC11(t *testing.T) {
 	rec := evid.For("C11")
 	rec.Rule = "raw HTTP/1.x request text built from a valid upgrade request by 0-2 field mutations (method, HTTP version, Connection / Upgrade token lists incl. case, several tokens, several lines and near-misses, Sec-WebSocket-Version values, key variants: 15/17/32/0 bytes, bad alphabet, URL-safe alphabet, missing padding, missing, duplicated), offered x supported subprotocol lists; parsed by http.ReadRequest and given to Accept with a recording hijacker (in one case of twelve with a ResponseWriter that has no Hijack method: never a 101); an independent predicate over the raw text says valid / invalid / either. A second stage sends the text plus pipelined client frames in one write to a real net/http server on loopback. Non-trivial: exactly one field mutated, or a valid request with multi-token/multi-line headers or a subprotocol match. distinct = hash(request text, supported list)."
-	rapid.Check(t, func(rt *rapid.T) {
+	checkProp(t, func(rt *rapid.T) {
 		q := genC11(rt)
 		text := q.render()
 		verdict, key := c11Verdict(text)
@@ -438,7 +438,7 @@ func TestC11Server(t *testing.T) {
 	go srv.Serve(ln)
 	defer srv.Close()
 	n := 0
-	rapid.Check(t, func(rt *rapid.T) {
+	checkProp(t, func(rt *rapid.T) {
 		n++
 		q := genC11(rt)
 		id := fmt.Sprint(n)
